@@ -519,6 +519,15 @@ func checkC07(c c07Case) (rejected int, grown int, err error) {
 				otherNodes = append(otherNodes, sortedNodes(before.Repos[r])...)
 			}
 		}
+		if o.Kind == "reuse" { // composite: commit the target if needed, then a branch request re-using an existing branch name
+			if !target.Locked {
+				drive.Commit(target.UUID)
+				if before, e = takeSnapshot(); e != nil {
+					return rejected, grown, e
+				}
+			}
+			o.Kind, o.Name, o.Addr, o.UUID, o.Body = "branch", 3+7*(o.Name%2), 0, 0, 0
+		}
 		if o.Kind == "grow" { // composite: commit the target if needed, then a plain branch request with a fresh name
 			if !target.Locked {
 				drive.Commit(target.UUID)
@@ -627,11 +636,15 @@ func checkC07(c c07Case) (rejected int, grown int, err error) {
 			switch o.Name % 7 {
 			case 0, 1, 2:
 				name = fmt.Sprintf("br%d", i)
-			case 3: // existing named branch of this repo
+			case 3: // existing named branch of this repo (also names that only survive on inner nodes)
+				var names []string
 				for n := range w.named[myRoot] {
-					name = n
+					names = append(names, n)
 				}
-				if name == "" {
+				sort.Strings(names)
+				if len(names) > 0 {
+					name = names[(o.Node+o.Name/7)%len(names)]
+				} else {
 					name = fmt.Sprintf("br%d", i)
 				}
 			case 4:
@@ -830,7 +843,7 @@ func checkC07(c c07Case) (rejected int, grown int, err error) {
 func genC07(t *rapid.T) c07Case {
 	var c c07Case
 	n := rapid.IntRange(3, 40).Draw(t, "nops")
-	kinds := []string{"commit", "commit", "commit", "newversion", "newversion", "newversion", "branch", "branch", "branch", "tag", "merge", "merge", "resolve", "note", "log", "newinstance", "rename", "delinstance", "newrepo", "delrepo", "grow", "grow", "grow", "grow"}
+	kinds := []string{"commit", "commit", "commit", "newversion", "newversion", "newversion", "branch", "branch", "branch", "tag", "merge", "merge", "resolve", "note", "log", "newinstance", "rename", "delinstance", "newrepo", "delrepo", "grow", "grow", "grow", "grow", "grow", "reuse", "reuse"}
 	for i := 0; i < n; i++ {
 		o := op{Kind: rapid.SampledFrom(kinds).Draw(t, "kind")}
 		o.Repo = rapid.IntRange(0, 2).Draw(t, "repo")
@@ -876,6 +889,8 @@ func classes(c c07Case) []string {
 			if o.Kind == "branch" && o.Name%7 == 3 {
 				cls["branch-name-reuse"] = true
 			}
+		case "reuse":
+			cls["branch-name-reuse"] = true
 		case "tag":
 			if o.Name%5 == 2 {
 				cls["tag-equal-to-existing-uuid"] = true
